@@ -45,15 +45,16 @@ NB_PEG = [
     ('nb_peg', 'nb_peg_repnullable', '(a*){2,3} ~ PUSH(b)? ~ DROP{1,2} (an element that may match the empty string); all strings<=7 chars over {a,b,c}', 'q'),
     ('nb_peg', 'nb_peg_skippush', 'implicit skip rule that pushes before it can fail: skip = (PUSH(b) ~ c)*; PUSH(a) ~ a ~ PEEK_ALL with that skip; all strings<=7 chars over {a,b,c}', 'q'),
     ('nb_peg', 'nb_peg_repasskip', 'a bounded repetition as the skip node (RepeatMinMax<_,0,1> NeverFailedTypedNode impl): a ~ b ~ a; all strings<=8 chars over {a,b,blank}', 'q'),
+    ('nb_peg', 'nb_peg_sub', 'seven grammars (sequences, repetitions, stack, slices) on every sub-range of all strings<=6 chars over {a,b,blank}, given as Span sub-inputs', 'q'),
 ]
 NB_PEG = [(t[0], t[1], t[2], 'Q') for t in NB_PEG] + [(t[0], t[1], t[2] + ' — bound raised by 3 characters', 't', {'VERIF_NB_EXTRA': '3'}) for t in NB_PEG]
 NB_PEG_STACK = [t for t in NB_PEG if t[1] in ('nb_peg_push_pop', 'nb_peg_pred', 'nb_peg_rep_choice', 'nb_peg_slice', 'nb_peg_bal', 'nb_peg_optpush', 'nb_peg_reppush', 'nb_peg_repbal', 'nb_peg_predmut', 'nb_peg_repminfail', 'nb_peg_repmmfail', 'nb_peg_repnoprogress', 'nb_peg_repnullable', 'nb_peg_skippush')]
 NB_SLICES = ('nb_slices', 'nb_slices', 'all stacks of depth<=4 over {a,bb} x all PEEK[a..b], PEEK[a..] with a,b in -6..=6 x all inputs<=5 chars', 'q')
 NB_PEG_D1 = ('nb_peg', 'nb_peg_d1', 'PUSH(a) ~ ((POP? ~ b) | PEEK); all strings<=6 chars over {a,b}', 'q')
-NB_GEN = ('derive:nb_gen', 'nb_gen_vs_pest', 'generated parser vs pest: 39 rules (all kinds/operators, built-ins, stack slices) x all strings<=5 chars over 3 alphabets', 'Q')
-NB_GEN_T = ('derive:nb_gen', 'nb_gen_vs_pest', 'generated parser vs pest: 39 rules x all strings<=7 chars over 3 alphabets', 't', {'VERIF_NB_L': '7'})
+NB_GEN = ('derive:nb_gen', 'nb_gen_vs_pest', 'generated parser vs pest: 40 rules (all kinds/operators, built-ins, stack slices) x all strings<=5 chars over 3 alphabets', 'Q')
+NB_GEN_T = ('derive:nb_gen', 'nb_gen_vs_pest', 'generated parser vs pest: 40 rules x all strings<=7 chars over 3 alphabets', 't', {'VERIF_NB_L': '7'})
 NB_GEN_SUB_REL = ('derive:nb_gen', 'nb_gen_subinput@release', 'RELEASE profile (debug assertions off, unchecked slicing): 22 entry rules x all strings<=4 chars x all sub-ranges', 'q', {'VERIF_PROFILE': 'release'})
-NB_GEN_REL = ('derive:nb_gen', 'nb_gen_vs_pest@release', 'RELEASE profile: 39 rules x all strings<=5 chars over 3 alphabets', 'q', {'VERIF_PROFILE': 'release'})
+NB_GEN_REL = ('derive:nb_gen', 'nb_gen_vs_pest@release', 'RELEASE profile: 40 rules x all strings<=5 chars over 3 alphabets', 'q', {'VERIF_PROFILE': 'release'})
 NB_INPUT_REL = ('nb_input', 'nb_skip_contract@release', 'RELEASE profile: skip / Position::next on all strings<=4 chars x all spans', 'q', {'VERIF_PROFILE': 'release'})
 NB_GEN_SKIPTOK = ('derive:nb_gen', 'nb_gen_skip_tokens', 'generated parser vs pest, grammar with NON-silent WHITESPACE/COMMENT: 5 rules x all strings<=6 tokens over 2 alphabets', 'q')
 NB_GEN_SKIP_ONLY = ('derive:nb_gen', 'nb_gen_skip_only', 'generated parser vs pest, grammars defining ONLY a non-silent WHITESPACE / ONLY a non-silent COMMENT (own generator arms): 4 rules each x all strings<=7 chars over {a,b,comma,blank}', 'q')
@@ -83,10 +84,10 @@ PROPS = {
         'level_text': 'Runtime half only: every combinator of the runtime crate is proved (Verus, all inputs, all stacks, all child node types) to compute the PEG denotation `sem` taken from the property statement: leaves, optional, pair, array, choice 2..12, predicates, PUSH/PEEK/POP/DROP, both paths of sequences 2..12 and of all repetitions (the parse paths after the mechanical rewrite R9 of core::array::from_fn(|_| ..) into the loop it stands for), the _ALL / slice stack nodes, full-input wrappers, the rule-kind macro arms. The generator translation (grammar -> type tree) is not covered.',
         'level_note': NOTE_COMMON + 'That `sem` coincides with pest where pest is defined is an assumption (textbook PEG semantics); generator half n/a.',
         'technique': TECH,
-        'verus': ['comb', 'choice', 'nodes', 'slices', 'slicefn', 'seqchk', 'seqpar', 'repchk', 'reppar', 'wrappers', 'leaf', 'input'],
+        'verus': ['idx', 'comb', 'choice', 'nodes', 'slices', 'slicefn', 'seqchk', 'seqpar', 'repchk', 'reppar', 'wrappers', 'leaf', 'input'],
         'expanded': True,
         'kani': K_PEG,
-        'native': NB_PEG + [NB_PEG_D1, NB_GEN, NB_GEN_T, NB_GEN_SKIPTOK, NB_GEN_SKIP_ONLY, NB_GEN_UNOPT, NB_GEN_NO_NORMAL, NB_GEN_UNOPT_PLUS, NB_MATCHERS],
+        'native': NB_PEG + [NB_PEG_D1, NB_GEN, NB_GEN_T, NB_GEN_SKIPTOK, NB_GEN_SKIP_ONLY, NB_GEN_UNOPT, NB_GEN_NO_NORMAL, NB_GEN_UNOPT_PLUS, NB_MATCHERS, NB_SLICES],
         'assumptions': ['sem (PEG denotation with full backtracking, failing empty-stack operations) is pest\'s behaviour where pest is defined',
                         'generator translation of the grammar into the combinator type tree is not verified (DESIGN.md §6)'],
     },
@@ -211,7 +212,7 @@ PROPS = {
         'verus': ['tracker', 'wrappers'],
         'expanded': False,
         'kani': [],
-        'native': [NB_GEN, NB_GEN_T, NB_GEN_SKIPTOK, NB_GEN_SKIP_ONLY, NB_GEN_UNOPT, NB_GEN_NO_NORMAL, NB_GEN_NO_NORMAL],
+        'native': [NB_GEN, NB_GEN_T, NB_GEN_SKIPTOK, NB_GEN_SKIP_ONLY, NB_GEN_UNOPT, NB_GEN_NO_NORMAL, NB_GEN_SUB],
         'assumptions': ['contracts of Tracker::clear / get_entry / record are assumed (BTreeMap has no vstd model)',
                         'truthfulness of expected/unexpected rule lists is decided only within the bound of nb_gen, with rules re-run in the default context'],
     },
@@ -272,7 +273,7 @@ PROPS = {
         'verus': [],
         'expanded': False,
         'kani': [],
-        'native': [NB_GEN, NB_GEN_T, NB_GEN_SKIPTOK, NB_GEN_SKIP_ONLY, NB_GEN_UNOPT, NB_GEN_NO_NORMAL, NB_GEN_NO_NORMAL],
+        'native': [NB_GEN, NB_GEN_T, NB_GEN_SKIPTOK, NB_GEN_SKIP_ONLY, NB_GEN_UNOPT, NB_GEN_NO_NORMAL],
         'explanation': 'The traversal helpers are run on the real tree of every accepted (rule, input) pair within the bound and compared with a recursive reference traversal written in the test.',
         'assumptions': [],
     },
@@ -281,7 +282,7 @@ PROPS = {
         'level_text': 'First-match-wins and leaf contents are Verus postconditions for all inputs and child types: the variant a Choice2..12 parse builds is the first alternative whose denotation matches (node_ok), CharRange/ANY expose the first scalar of the remaining input, Insens the consumed spelling, NEWLINE the alternative consumed (CRLF preferred), PEEK/POP/Skip/SkipChar the consumed span. Accessors are loop-free and proved complete by Kani over full-domain payloads for every arity 2..16 (13..16 instantiated with the exported choices!/seq! macros): exactly one _k() is Some and it is the stored value; the if_then/else_if/else_then, reference and consume chains run exactly closure k; get_matched/as_ref/get_all/into_matched/into_all return the fields in grammar order. Sequence and repetition contents are Verus postconditions too (node_ok of Seq2..12: field k holds the node element k built where it matched; of RepeatMin/RepeatMinMax/AtomicRepeat: exactly the matched units, in order, each built where it matched). Repetition iterators (iter_matched etc.) are a bounded stand-in; match_choices! is a generator proc macro (n/a).',
         'level_note': NOTE_COMMON + 'Payload parametricity: accessor bodies never inspect the payload (checked with u8 payloads). match_choices! not covered.',
         'technique': TECH,
-        'verus': ['comb', 'choice', 'leaf', 'nodes', 'seqpar', 'reppar'],
+        'verus': ['comb', 'choice', 'leaf', 'nodes', 'seqpar', 'reppar', 'input'],
         'expanded': True,
         'kani': [
             ('k_acc', 'acc_choice2', 'complete', 'q', 'choice accessors and helper chains, arity 2, all alternative indices x all u8 payloads (loop-free)'),
@@ -356,7 +357,7 @@ PROPS = {
         'level_text': 'Verus proves for all MIN, MAX, SKIP and element types the check paths of RepeatMin / RepeatMinMax / AtomicRepeat and try_check_unit against the greedy bounded-repetition denotation (fails iff a unit fails before MIN, stops at MAX, state after the last matched unit so an unmatched skip is not consumed), and both paths of [T;N], (T1,T2), Option<T>. The parse paths of the repetitions and try_parse_unit are proved against the same denotation (unit reppar, after rewrite R9), with node_ok: the node holds exactly the matched units, count <= MAX and >= MIN (for MIN <= MAX; a RepeatMinMax with MIN > MAX stops at MAX like the unrolling pest performs for e{m,n}; the bounds in the statement are read for MIN <= MAX).',
         'level_note': NOTE_COMMON + 'Termination of the unbounded loop is not claimed (R6: a for over 0usize.. is assumed never to exhaust 2^64-1 iterations).',
         'technique': TECH,
-        'verus': ['comb', 'repchk', 'reppar'],
+        'verus': ['comb', 'repchk', 'reppar', 'input'],
         'expanded': False,
         'kani': K_PEG,
         'native': NB_PEG,
